@@ -6,7 +6,7 @@ import ast
 from ..model import CFG
 from . import names, counters
 from .common import site_of
-from .flow import (Oblig, calls, events, deps_of, arg_deps, SELF, P, is_worklist_closure, result_locs)
+from .flow import (helpers_of, Oblig, calls, events, deps_of, arg_deps, SELF, P, is_worklist_closure, result_locs)
 
 EXPLANATION = (
     "Decides: remove_useless_symbols filters by generating first and computes reachability on the filtered grammar, "
@@ -74,11 +74,46 @@ def run(eng, rep, tier):
     ob.decide("R1", "C09.2", fi, "re-adds-over-unit-pairs", tag("UNITPAIRS") in deps_of(summ.ret),
               "non-unit bodies are re-added over the unit pairs", "eliminate_unit_productions ignores the unit pairs",
               summ, site=site_of(prog, fi, fi.node))
+    # some comprehension filter of the function keeps exactly the productions that are NOT of the form A -> B:
+    # evaluated as a boolean function of the two atoms `len(body) == 1` and `isinstance(body[0], Variable)`,
+    # through private one-expression helpers and local names
     base_ok = False
+    helpers = helpers_of(prog, fi)
+
+    def _expand(e, depth=0):
+        if isinstance(e, ast.Call) and depth < 3:
+            nm = e.func.attr if isinstance(e.func, ast.Attribute) else getattr(e.func, "id", None)
+            h = helpers.get(nm) if nm and nm.startswith("_") else None
+            if h is not None:
+                rets = [r for r in ast.walk(h) if isinstance(r, ast.Return) and r.value is not None]
+                if len(rets) == 1:
+                    return _expand(rets[0].value, depth + 1)
+        return e
+
+    def _unit_value(e, a, b):
+        """value of the filter for (len(body) == 1) = a, (body[0] is a Variable) = b; None when not understood"""
+        e = _expand(e)
+        if isinstance(e, ast.BoolOp):
+            vals = [_unit_value(v, a, b) for v in e.values]
+            if any(v is None for v in vals):
+                return None
+            return all(vals) if isinstance(e.op, ast.And) else any(vals)
+        if isinstance(e, ast.UnaryOp) and isinstance(e.op, ast.Not):
+            v = _unit_value(e.operand, a, b)
+            return None if v is None else (not v)
+        if isinstance(e, ast.Compare) and len(e.ops) == 1 and any(
+                isinstance(c, ast.Call) and getattr(c.func, "id", "") == "len" for c in ast.walk(e)) and \
+                any(isinstance(c, ast.Constant) and c.value == 1 for c in [e.left] + e.comparators):
+            return a if isinstance(e.ops[0], ast.Eq) else (not a) if isinstance(e.ops[0], ast.NotEq) else None
+        if isinstance(e, ast.Call) and getattr(e.func, "id", "") == "isinstance" and len(e.args) == 2 and \
+                "Variable" in ast.unparse(e.args[1]):
+            return b
+        return None
     for c in ast.walk(fi.node):
-        if isinstance(c, ast.ListComp) and c.generators and c.generators[0].ifs:
-            txt = ast.unparse(c.generators[0].ifs[0])
-            if "len(" in txt and "isinstance" in txt and "Variable" in txt and ("!= 1" in txt or "not" in txt):
+        if isinstance(c, (ast.ListComp, ast.SetComp, ast.GeneratorExp)) and c.generators and c.generators[0].ifs:
+            f_ = c.generators[0].ifs[0]
+            table = {(a, b): _unit_value(f_, a, b) for a in (False, True) for b in (False, True)}
+            if table == {(False, False): True, (False, True): True, (True, False): True, (True, True): False}:
                 base_ok = True
     ob.decide("R1", "C09.2", fi, "base-set-excludes-unit-productions", base_ok,
               "unit productions are excluded from the base set",
@@ -127,7 +162,7 @@ def run(eng, rep, tier):
     rets = [ev for ev in evs if ev.kind == "ret"]
     unstored = [ev for i, ev in enumerate(evs) if ev.kind == "ret" and not (i > 0 and evs[i - 1].kind == "write")
                 and not any("_normal_form is not None" in f[0] and f[1] for f in ev.facts)]
-    ob.decide("R4b", "C09.4", fi, "cache-stores-returned-value", bad is None and n_pairs >= 2 and not unstored,
+    ob.decide("R4b", "C09.4", fi, "cache-stores-returned-value", bad is None and n_pairs >= 1 and not unstored,
               "every path stores in the cache exactly the grammar it returns (%d paths)" % n_pairs,
               "a path of to_normal_form returns a grammar different from the one it caches (or caches nothing)", summ,
               site=((bad or (unstored[0] if unstored else None)).site.to_json() if (bad or unstored) else None))
